@@ -288,6 +288,14 @@ def refresh_obligation(prog, rule, cname, mname):
                              and isinstance(x.args[1], ast.Constant) and isinstance(x.args[1].value, str)}) \
                 if isinstance(st, ast.If) else []
             shared = [k for k in keys if any(root_param(r) is not None for r in attr_out.get(k, ()))]
+            # the key is compared EXACTLY: a tolerance (allclose / isclose) has an absolute scale - two different arguments in small
+            # units compare equal and the stale value is returned
+            if isinstance(st, ast.If):
+                tol = [x for x in ast.walk(st.test) if isinstance(x, ast.Call) and U(x.func).split(".")[-1] in ("allclose", "isclose", "assert_allclose")]
+                if tol:
+                    why.append(f"self.{a} is refreshed only when `{U(st.test)[:80]}` (line {st.lineno}): `{U(tol[0].func)}` compares the key with a "
+                               f"tolerance (absolute 1e-8 by default), so nearby but different arguments get the stale value")
+                    continue
             # the arguments the refreshed value is computed from must all be looked at by the guard
             from ..term import Resolver
             rz_ = Resolver(fn, prog, ci.module, ci)
@@ -320,7 +328,16 @@ def refresh_obligation(prog, rule, cname, mname):
 
                 def part_tokens(node):
                     toks = set()
+                    sliced = set()
                     for x in ast.walk(node):
+                        # a slice of the argument written in place, theta[self.cov_slice], is a part of it too
+                        if isinstance(x, ast.Subscript) and isinstance(x.value, ast.Name) and x.value.id in params_ \
+                                and isinstance(x.slice, ast.Attribute) and isinstance(x.slice.value, ast.Name) and x.slice.value.id == sn:
+                            toks.add(x.slice.attr)
+                            sliced.add(id(x.value))
+                    for x in ast.walk(node):
+                        if id(x) in sliced:
+                            continue
                         if isinstance(x, ast.Attribute) and isinstance(x.value, ast.Name) and x.value.id == sn and x.attr in parts:
                             toks.add(x.attr)
                         elif (isinstance(x, ast.Name) and x.id in params_) or (isinstance(x, ast.Attribute) and isinstance(x.value, ast.Name)
